@@ -14,11 +14,16 @@ class JobInformation:
 
     @cached_property
     def params(self):
-        return json.loads((self.path / "params.json").read_text())
+        path = self.path / "params.json"
+        if not path.is_file():
+            # Not (yet) a prepared job directory, e.g. it only contains the
+            # lock file of a job with pre-tasks or init tasks
+            return {}
+        return json.loads(path.read_text())
 
     @cached_property
     def tags(self) -> List[str]:
-        return self.params["tags"]
+        return self.params.get("tags", {})
 
     @cached_property
     def state(self) -> Optional[JobState]:
